@@ -41,7 +41,7 @@ ASSUMPTIONS = [
     "a run whose RunStopped was delivered only before its RunStarted is not required to have a RecentRun (the aggregator cannot know it ended); it must still not have two",
 ]
 TIERS = {
-    "quick": {"cases": 4000, "budget_s": 170},
+    "quick": {"cases": 3000, "budget_s": 170},
     "thorough": {"cases": 200000, "budget_s": 800},
 }
 T0 = AggHarness.T0
